@@ -194,7 +194,9 @@ def gen_msgspec(rng, allow=BASES):
                 m["n"] = rng.randint(1, 5)
                 m["seed"] = rng.randrange(1 << 30)
             elif f == "payload":
-                m["v"] = rng.choice(["garbage", "empty", "nonlist", "wrongshape", "deep", "hugecount"])
+                m["v"] = rng.choice(["garbage", "empty", "nonlist", "wrongshape", "deep", "hugecount",
+                                     "zok", "zprefix", "zprefix", "zheader", "zempty", "ztrailing"])
+                m["cut"] = rng.randint(1, 12)
             elif f == "ann":
                 m["v"] = rng.choice(["short-chunk", "overrun", "nonascii", "many", "BLBI-garbage"])
             muts.append(m)
@@ -336,6 +338,14 @@ def build_msg(spec):
             elif v == "hugecount":
                 # a container / string header that declares far more elements than bytes follow (per serializer)
                 payload = {1: b"[" + b"1," * 3, 2: b"(\x04\xda\x03\x74tok", 3: b"[" * 40, 4: b"\xdd\x7f\xff\xff\xff\x01"}.get(sid, b"(\xff\xff\xff\x7f")
+            elif v in ("zok", "zprefix", "zheader", "zempty", "ztrailing"):
+                # the COMPRESSED flag with a consistent header and a payload that is a whole zlib stream, the beginning of one
+                # (chopped off: an incremental inflater reports neither an error nor the end for it), only its two header bytes,
+                # nothing at all, or a whole stream with bytes behind it
+                z = zlib.compress(payload)
+                cut = min(m.get("cut", 4), len(z) - 2)
+                payload = {"zok": z, "zprefix": z[:len(z) - cut], "zheader": z[:2], "zempty": b"", "ztrailing": z + b"\x00" * cut}[v]
+                flags |= N.FLAG_COMPRESSED
         elif f == "ann":
             v = m["v"]
             if v == "many":
